@@ -49,6 +49,19 @@ type c12Doc struct {
 	L  []string               `json:"l"`
 	P  *string                `json:"p"`
 	RL []gojson.RawMessage    `json:"rl"`
+	// elements the slice decoder builds in its pooled working array before it copies them out: what an earlier
+	// result holds (pointers, maps, nested slices) must not be reachable from a later one
+	LP []*c12Sub           `json:"lp"`
+	LM []map[string]string `json:"lm"`
+	LL [][]*string         `json:"ll"`
+	LS []c12Sub            `json:"ls"`
+	LI []interface{}       `json:"li"`
+}
+
+type c12Sub struct {
+	A int     `json:"a"`
+	B string  `json:"b"`
+	C *string `json:"c"`
 }
 
 func c12Snap(d *c12Doc) string {
@@ -81,6 +94,49 @@ func c12Snap(d *c12Doc) string {
 	for _, r := range d.RL {
 		fmt.Fprintf(&b, " RL=%q", string(r))
 	}
+	sub := func(x *c12Sub) {
+		if x == nil {
+			b.WriteString(" nil")
+			return
+		}
+		fmt.Fprintf(&b, " {%d %q", x.A, x.B)
+		if x.C != nil {
+			fmt.Fprintf(&b, " %q", *x.C)
+		}
+		b.WriteString("}")
+	}
+	b.WriteString(" LP=")
+	for _, x := range d.LP {
+		sub(x)
+	}
+	b.WriteString(" LS=")
+	for i := range d.LS {
+		sub(&d.LS[i])
+	}
+	for _, m := range d.LM {
+		ks = ks[:0]
+		for k := range m {
+			ks = append(ks, k)
+		}
+		sortStrings(ks)
+		b.WriteString(" LM{")
+		for _, k := range ks {
+			fmt.Fprintf(&b, "%q=%q ", k, m[k])
+		}
+		b.WriteString("}")
+	}
+	for _, l := range d.LL {
+		b.WriteString(" LL[")
+		for _, x := range l {
+			if x == nil {
+				b.WriteString("nil ")
+			} else {
+				fmt.Fprintf(&b, "%q ", *x)
+			}
+		}
+		b.WriteString("]")
+	}
+	fmt.Fprintf(&b, " LI=%#v", d.LI)
 	return b.String()
 }
 
@@ -137,6 +193,40 @@ func c12GenDoc(r *rand.Rand) string {
 	add("l", `[`+c12Str(r)+`,`+c12Str(r)+`]`)
 	add("p", c12Str(r))
 	add("rl", `[ {"a":1} , "x" ,[2]]`)
+	subs := func() string {
+		n := r.Intn(5)
+		var e []string
+		for i := 0; i < n; i++ {
+			switch r.Intn(5) {
+			case 0:
+				e = append(e, `null`)
+			case 1:
+				e = append(e, `{"a":`+strconv.Itoa(r.Intn(100))+`}`)
+			case 2:
+				e = append(e, `{"b":`+c12Str(r)+`}`)
+			default:
+				e = append(e, `{"a":`+strconv.Itoa(r.Intn(100))+`,"b":`+c12Str(r)+`,"c":`+c12Str(r)+`}`)
+			}
+		}
+		return "[" + strings.Join(e, ",") + "]"
+	}
+	add("lp", subs())
+	add("ls", strings.ReplaceAll(subs(), "null", "{}"))
+	{
+		n := r.Intn(4)
+		var e []string
+		for i := 0; i < n; i++ {
+			e = append(e, []string{`{"k":`+c12Str(r)+`}`, `{}`, `{"k":"v","j`+strconv.Itoa(r.Intn(5))+`":"w"}`, `null`}[r.Intn(4)])
+		}
+		add("lm", "["+strings.Join(e, ",")+"]")
+		e = e[:0]
+		n = r.Intn(4)
+		for i := 0; i < n; i++ {
+			e = append(e, []string{`[`+c12Str(r)+`]`, `[]`, `[null,`+c12Str(r)+`,"x"]`, `null`}[r.Intn(4)])
+		}
+		add("ll", "["+strings.Join(e, ",")+"]")
+		add("li", []string{`[]`, `[1,"a",{"k":[2]}]`, `[[` + c12Str(r) + `],null]`}[r.Intn(3)])
+	}
 	r.Shuffle(len(parts), func(i, j int) { parts[i], parts[j] = parts[j], parts[i] })
 	return "{" + strings.Join(parts, ", ") + "}"
 }
@@ -269,6 +359,53 @@ func runC12(o *Out) {
 		}
 		o.count("stream_documents", int64(len(vals)))
 		o.hist("stream_piece", strconv.Itoa(piece))
+	}
+	// ---------- any entry point: values decoded earlier survive later decodes into other values of the same type ----------
+	nh := 300
+	if o.tier == "thorough" {
+		nh = 4000
+	}
+	{
+		var vals []*c12Doc
+		var snaps, docs []string
+		for i := 0; i < nh; i++ {
+			doc := c12GenDoc(r)
+			api := apis[r.Intn(len(apis))]
+			o.current(map[string]string{"property": "C12", "api": "held " + api, "doc": clip(doc)})
+			d := &c12Doc{}
+			var err error
+			switch api {
+			case "Unmarshal":
+				err = gojson.Unmarshal([]byte(doc), d)
+			case "UnmarshalContext":
+				err = gojson.UnmarshalContext(context.Background(), []byte(doc), d)
+			case "UnmarshalNoEscape":
+				err = gojson.UnmarshalNoEscape([]byte(doc), d)
+			case "UnmarshalWithOption":
+				err = gojson.UnmarshalWithOption([]byte(doc), d, gojson.DecodeFieldPriorityFirstWin())
+			case "Decoder":
+				err = gojson.NewDecoder(&pieceReader{b: []byte(doc), size: []int{1, 7, 512, 1 << 20}[r.Intn(4)], failAt: -1}).Decode(d)
+			}
+			o.count("held_decode_calls", 1)
+			if err == nil {
+				var sd c12Doc
+				if serr := stdjson.Unmarshal([]byte(doc), &sd); serr == nil && c12Snap(&sd) != c12Snap(d) {
+					o.count("differs_from_encoding_json", 1)
+				}
+				vals, snaps, docs = append(vals, d), append(snaps, c12Snap(d)), append(docs, doc)
+			}
+			for j := range vals {
+				if c12Snap(vals[j]) != snaps[j] {
+					o.violation("C12", "a value decoded earlier changed during a later decode into another value of the same type", map[string]string{
+						"later_api": api, "later_doc_hex": hx([]byte(doc)), "earlier_doc_hex": hx([]byte(docs[j])),
+						"before": clip(snaps[j]), "after": clip(c12Snap(vals[j]))})
+					snaps[j] = c12Snap(vals[j])
+				}
+			}
+			if len(vals) > 12 {
+				vals, snaps, docs = vals[len(vals)-8:], snaps[len(snaps)-8:], docs[len(docs)-8:]
+			}
+		}
 	}
 	// ---------- encode side ----------
 	c12MarshalerWindows(o)
